@@ -120,6 +120,11 @@ def fingerprint(r):
             "ops": [[o["class"], bool(o.get("bad")), bool(o.get("good"))] for o in r["ops"]]}
 
 
+def shape(fp):
+    """a fingerprint without the concrete identifiers: what a generated variant of a finding's replay must reproduce"""
+    return {"oracle": fp["oracle"], "journal": [[e[0], e[1], e[2], e[5]] for e in fp["journal"]], "ops": fp["ops"]}
+
+
 def replay_scenarios(chk, scs):
     p = chk.tmp("replay_in.json")
     json.dump(scs, open(p, "w"))
@@ -128,7 +133,7 @@ def replay_scenarios(chk, scs):
 
 
 def sizes(tier):
-    return (600, 200, 600) if tier == "quick" else (12000, 4000, 20000)
+    return (600, 200, 600) if tier == "quick" else (28000, 9000, 40000)
 
 
 def run(chk, only=None):
@@ -190,13 +195,14 @@ def run(chk, only=None):
         chk.violation("a proof obligation of C17 no longer checks", {"theorem": PROP_FILE, "coq_output": pr["out"][-1500:]}, False)
     # ---- finding stream: committed replays must still fail; generated variants outside listed predicates are violations
     if only is None:
-        allowed = {}
+        allowed, shapes = {}, {}
         for f in findings:
             p = os.path.join(vlib.VERIF, f["replay"])
             rj = json.load(open(p))
             rr = replay_scenarios(chk, rj["scenarios"])
             exp = rj.get("expected") or []
             allowed[f["pred"]] = {m for e in exp for m in e["oracle"]}
+            shapes[f["pred"]] = [shape(e) for e in exp]
             got = [fingerprint(r) for r in rr]
             if not any(r["oracle"] for r in rr):
                 print("STALE-FINDING: property=C17 %s no longer reproduces" % f["id"])
@@ -224,11 +230,10 @@ def run(chk, only=None):
             if not r["scenario"]["stream"].startswith("finding:"):
                 continue
             pred = r["scenario"]["stream"].split(":", 1)[1]
-            if r["oracle"] and pred in preds:
-                extra = [m for m in r["oracle"] if norm_msg(m) not in allowed.get(pred, set())]
-                if extra:
-                    chk.violation("C17 fails on the real code in a way finding %s does not record: %s" % (pred, "; ".join(extra[:3])),
-                                  slim(r), True)
+            if pred in preds and shape(fingerprint(r)) not in shapes.get(pred, []):
+                # a generated variant of a finding's history must do exactly what its replay is recorded to do
+                chk.violation("a variant of finding %s does not reproduce the recorded outcome: %s"
+                              % (pred, "; ".join(r["oracle"] or ["no oracle failure; journal/outcomes differ"])[:300]), slim(r), True)
             if r["oracle"] and pred not in preds:
                 chk.violation("C17 fails on the real code (%s): %s" % (pred, "; ".join(r["oracle"][:2])), slim(r), True)
     nontriv = [r for r in clean if any(e["k"] == "sql" and e["cmd"] == "START" for e in r["events"] or [])]
